@@ -226,12 +226,20 @@ impl ByteCompiler<'_> {
                 self.register_allocator.dealloc(is_return);
 
                 self.patch_jump(return_method_undefined);
-                self.patch_jump(resume_return);
 
                 if self.is_async() {
+                    // The iterator has no `return` method: `value` is `? Await(received.[[Value]])`.
                     self.bytecode.emit_await(dst.variable());
                     self.bytecode.emit_pop();
+                    let awaited = self.jump();
+
+                    // The iterator's `return` method completed the iteration: the value of
+                    // its result is returned as it is, without awaiting it again.
+                    self.patch_jump(resume_return);
+                    self.push_from_register(dst);
+                    self.patch_jump(awaited);
                 } else {
+                    self.patch_jump(resume_return);
                     self.push_from_register(dst);
                 }
                 self.close_active_iterators();
